@@ -101,6 +101,8 @@ def shards(tier):
                     out.append({'ctx': ctx, 'bs': bs, 'n': [3], 'first': f})
                 if b['deep_alphabet']:
                     out.append({'ctx': ctx, 'bs': bs, 'n': [4], 'first': f})
+    for bs in (3, 16):
+        out.append({'big': 260, 'bs': bs})          # one call with more than 255 lines
     return out
 
 
@@ -109,6 +111,12 @@ def run_shard(shard, ctx, tier):
     import sys
     mod = sys.modules[__name__]
     b = BOUNDS[tier]
+    if 'big' in shard:
+        narrow = [i for i, (w, _) in enumerate(CROPS) if w <= 200]
+        lst = [narrow[(7 * k + k // 5) % len(narrow)] for k in range(shard['big'])]
+        for mode in (0, 1):
+            guarded_check(mod, {'lines': lst, 'bs': shard['bs'], 'ctx': 0, 'mode': mode}, ctx)
+        return
     for n in shard['n']:
         if n == 4:
             deep = [7, 8, 9, 10, 12, 0][:b['deep_alphabet']]
@@ -176,6 +184,8 @@ def check_case(case, ctx):
     from pero_ocr.document_ocr.page_parser import PageOCR
     lst, bs, cx, mode = case['lines'], case['bs'], case['ctx'], MODES[case['mode']]
     ctx.state((tuple(lst), bs, cx, mode))
+    if len(lst) > 255:
+        ctx.tag('more-than-255-lines-in-one-call')
     K = f'{ID}/{mode}'
     desc = f'lines {[CROPS[i] for i in lst]} batch_size={bs} stub_ctx={cx} mode={mode}'
     eng = make_engine(bs, cx)
@@ -282,6 +292,6 @@ def describe(tier):
         'assumptions': ['frames beyond a line\'s own tensor are padding and only need to decode to blank',
                         'over-long lines are compared with the alone-run under the same pixel budget (truncation depends on it)'],
         'min_nontrivial': 100,
-        'required_tags': ['embedding-engine-id-changed-between-calls', 'mixed-width-batches', 'truncated-line', 'several-batches', 'equal-width-lines', 'page-ocr-pages',
+        'required_tags': ['more-than-255-lines-in-one-call', 'embedding-engine-id-changed-between-calls', 'mixed-width-batches', 'truncated-line', 'several-batches', 'equal-width-lines', 'page-ocr-pages',
                           'sparse-keeps-small-and-prunes-smaller'],
     }
